@@ -93,6 +93,14 @@ Rotate(k, sending) ==
   /\ last' = [op |-> "rotate", slot |-> k, sending |-> sending]
   /\ UNCHANGED <<epoch, accLog, dgrams>>
 
+\* Session level only (not part of Next, used by the trace specification for runs of real PeerCrypto pairs): in a
+\* session the receiver installs a rotated key first (Rotate(k, FALSE)) and the sender switches to it one message
+\* later (rotate_key with use_for_sending at the sender).  Which keys the two ends hold when is Rotation.tla's subject.
+Use(k) ==
+  /\ cur' = k
+  /\ last' = [op |-> "use", slot |-> k]
+  /\ UNCHANGED <<gen, sent, seen, nextMin, min, epoch, accLog, dgrams>>
+
 Next == \/ Seal
         \/ Tick
         \/ \E d \in dgrams : Deliver(d[1], d[2], d[3]) \/ DeliverTampered(d[1], d[2], d[3])
